@@ -219,6 +219,6 @@ META = {
              'the start of the drift, trims to the common band, rejects rates leaving no channels and registers fch1 per '
              "orientation and drift sign, that integration sums/averages the right axis and wraps it with the parent's "
              "resolutions, and that every derived frame receives the parent's orientation, resolutions, start time, source "
-             'name, generator and a copy of the data. "Within one channel" for drifting signals is not decided.',
+             'name, generator and a copy of the data. A de-drift that performs fewer row stores than the reference loop (a vectorised gather) is left undecided rather than reported; "within one channel" for drifting signals is not decided.',
     'note': 'Real arithmetic; fr is typed as a Frame so fs/fmin/fmax expand to the grid formulas checked under C05.',
 }
